@@ -224,8 +224,16 @@ theorem C15_error_partial (t : Tmpl) (hm : (proc {} [] t).ev.none = true) (he : 
 theorem C15_code_meets_spec_partial (t : Tmpl) (h : (proc {} [] t).ev.none = true) : Spec t (load t) = true := by
   simp [Spec, load_ideal t h]
 
-/-- The excluded iterator behaviour cannot occur when every iterator template's `enabled`
-    is plain text: a syntactic sufficient condition. -/
+/-- What IS proved in place of `C15_iterator_full`: the same, for templates in which every
+    iterator's template is one role whose `enabled` is plain text (a purely syntactic,
+    decidable condition) — then the dropped-iterator behaviour cannot occur. -/
+theorem C15_iterator_partial (t : Tmpl) (hl : iterEnabledLiteral t = true)
+    (hm : (proc {} [] t).ev.masked = false) (hh : (proc {} [] t).ev.hollow = false) : load t = idealLoad t := by
+  apply load_ideal
+  have hd := proc_no_iterDrop t {} [] hl
+  simp [Events.none, hm, hh, hd]
+
+/-- The ideal loader's result never contains an empty aggregator or an iterator node (all templates). -/
 theorem C15_ideal_wellformed (t : Tmpl) :
     (idealLoad t).all noEmptyAgg = true ∧ (idealLoad t).all noIter = true := by
   unfold idealLoad IOut.loaded
